@@ -616,9 +616,11 @@ def check_futures(impl, e):
     return None
 
 
-def check_history(hist, loop, want_obs=False):
+def check_history(hist, loop, want_obs=False, yield_every=1):
     """Impl-level oracle: run the history, evaluate the statement after every step.
-    Returns (violation dict or None, observations)."""
+    Returns (violation dict or None, observations).
+    yield_every: the event loop gets a turn only after every n-th event (n > 1: several messages are handled in ONE loop turn,
+    as when datagrams arrive back to back; done-callbacks of futures then run late)."""
     res = {"v": None, "obs": [], "ref": []}
 
     async def go():
@@ -633,8 +635,9 @@ def check_history(hist, loop, want_obs=False):
                             "history": hist_str(hist), "class": "harness"}
                 break
             r = impl.apply(e)
-            await asyncio.sleep(0)
-            await asyncio.sleep(0)
+            if yield_every <= 1 or (i + 1) % yield_every == 0:
+                await asyncio.sleep(0)
+                await asyncio.sleep(0)
             if errs:
                 r = "EXC:loop:" + type(errs[0].get("exception")).__name__
             if r != "ok":
@@ -1004,6 +1007,15 @@ def _correspond(ctx, loop):
         mo = mline.split(" | ")
         ro = rline.split(" | ") if rline else []
         v, io, refs = check_history(h, loop, want_obs="ref")
+        if not v and sum(1 for e in h if e[0] in ("Q", "S", "M")) >= 2:
+            # the same history with the loop yielding only every 2nd / 3rd event (the statement's clauses only; observations
+            # that depend on when done-callbacks ran are not compared)
+            for ye in (2, 3):
+                v2, _ = check_history(h, loop, yield_every=ye)
+                if v2 and v2.get("class") != "harness":
+                    v2["yield_every"] = ye
+                    v = v2
+                    break
         steps += len(io)
         if any(e[0] in ("F", "C", "D") and e[4] for e in h):
             nontriv += 1
@@ -1121,6 +1133,9 @@ def replay(ctx, case):
     loop = _loop()
     try:
         h = parse_hist(case["history"])
+        if case.get("yield_every"):
+            v, _ = check_history(h, loop, yield_every=int(case["yield_every"]))
+            return (v is not None), (v or "holds")
         if case.get("class") == "reference-set":
             v, io, refs = check_history(h, loop, want_obs="ref")
             for i, (sp, im) in enumerate(refs):
